@@ -651,10 +651,13 @@ func (c *Client) HandleInbound(data []byte, from net.Addr) (bool, error) {
 	//  - Non-STUN message from the STUN server
 
 	switch {
-	case stun.IsMessage(data):
-		return true, c.handleSTUNMessage(data, from)
+	// ChannelData is recognised by its channel number (first two bits 0b01),
+	// which no STUN message type shares. Test it first: stun.IsMessage only
+	// looks at bytes 4-8, where a ChannelData payload may carry the magic cookie.
 	case proto.IsChannelData(data):
 		return true, c.handleChannelData(data)
+	case stun.IsMessage(data):
+		return true, c.handleSTUNMessage(data, from)
 	case c.stunServerAddr != nil && from.String() == c.stunServerAddr.String():
 		// Received from STUN server but it is not a STUN message
 		return true, errNonSTUNMessage
